@@ -125,13 +125,14 @@ type op struct {
 }
 
 type obj struct {
-	x         kyber.XOF
-	log       []op
-	fromClone bool
-	reseeded  bool
-	dead      bool // state no longer modelled (see observations)
-	reading   bool // has read since creation/reseed (writes are illegal until a reseed)
-	id        int
+	x          kyber.XOF
+	log        []op
+	fromClone  bool
+	reseeded   bool
+	dead       bool // state no longer modelled (see observations)
+	reading    bool // has read since creation/reseed (writes are illegal until a reseed)
+	id         int
+	unmodelled bool // a clone after Reset: still used, no longer checked
 }
 
 // expected replays a log single-shot on a fresh factory instance: adjacent writes are merged into
@@ -219,6 +220,24 @@ func runHistory(t *core.Tape, info *core.RunInfo) *core.Violation {
 	for s := 0; s < steps; s++ {
 		o := objs[t.Intn("hist.obj", len(objs))]
 		if o.dead {
+			if o.unmodelled {
+				// a clone after its own Reset: C19 does not say what it yields, but whatever is done with
+				// it must leave every OTHER object alone (seed C19j: after Reseed, Clone and Reset of both,
+				// original and clone shared one live state)
+				core.Guard(func() {
+					switch t.Intn("hist.unmodelled", 3) {
+					case 0:
+						_, _ = o.x.Read(make([]byte, 1+t.Intn("hist.unmodelled", 100)))
+					case 1:
+						o.x.Reset()
+					default:
+						o.x.Reseed()
+						_, _ = o.x.Write([]byte{9})
+					}
+				})
+				info.Faults["use-of-a-reset-clone"]++
+				trace = append(trace, fmt.Sprintf("o%d.?", o.id))
+			}
 			continue
 		}
 		k := t.Pick("hist.op", []int{5, 3, 3, 2, 2, 1, 1})
@@ -346,7 +365,8 @@ func runHistory(t *core.Tape, info *core.RunInfo) *core.Violation {
 			if o.fromClone {
 				// the property speaks of XOFs obtained from their factory; a clone does not carry the seed (observation)
 				info.Probe("reset-on-clone-unmodelled")
-				o.dead = true
+				o.dead, o.unmodelled = true, true
+				trace = append(trace, fmt.Sprintf("o%d.z?", o.id))
 				continue
 			}
 			if o.reseeded {
